@@ -150,17 +150,24 @@ for (pr, cr) in PAIRS:
 
 # ------------------------------------------------------------------ C17
 PROPS["C17"] = dict(
-    level="proof",
+    level="other",
     explanation="per function: an enforced contract over the ghost allocator state (live-block count unchanged on every exit; a refused "
-                "request implies E_MEMORY_ALLOC), every allocation nondeterministically failing, callees replaced by their own contracts",
+                "request implies E_MEMORY_ALLOC; CBMC's free() preconditions give no double/invalid free), every allocation "
+                "nondeterministically failing, callees replaced by their own contracts. Unbounded for gridDiskDistances, gridDisk, "
+                "areNeighborCells, polygonToCellsExperimental, maxPolygonToCellsSizeExperimental and the polygon-iterator operations "
+                "(init, step, destroy). compactCells and legacy polygonToCells are NOT decided: no terminating contract job exists for them "
+                "(compactCells with <= 2 cells: > 30 min; polygonToCells: out of memory).",
     trusted_base=["stubs/alloc.c: the fault-injecting allocator model behind the library's H3_ALLOC_PREFIX switch (malloc/calloc/realloc/free "
-                  "delegating to CBMC's built-in heap model, which supplies the double-free / invalid-free obligations)"],
-    not_decided=["'results identical with the default allocator' is structural (H3_MEMORY is a token paste; the functions read no allocator state) "
-                 "and not a separate obligation"],
+                  "delegating to CBMC's built-in heap model)",
+                  "iterStepPolygonCompact's contract (ownership of the bbox block is kept or released; never E_MEMORY_ALLOC) is ASSUMED: its "
+                  "body is the geometric polygon walk"],
+    not_decided=["compactCells (all clauses)",
+                 "polygonToCells: the defect found there (inner gridDisk error dropped) was found by reading, confirmed and repaired through the "
+                 "native fault-injecting replay (replay case polygonToCells_alloc), not by a discharged obligation",
+                 "'results identical with the default allocator' is structural (H3_MEMORY is a token paste; no function reads allocator state)"],
     assumptions=[],
-    level_text="Unbounded proof per function where marked so in the evidence (gridDiskDistances, gridDisk, areNeighborCells, the experimental "
-               "polyfill entry points): every allocation may fail, all inputs symbolic. compactCells and polygonToCells are bounded stand-ins "
-               "(stated bounds), never counted as proved.",
+    level_text="Unbounded proof for five of the seven named functions (all inputs, every allocation may fail); compactCells and "
+               "polygonToCells are not decided. Hence category 'other', not 'proof'.",
     level_note="Trusts the allocator model in stubs/alloc.c and CBMC's heap model; callees that do not allocate are replaced by frame-only contracts.")
 J(name="c17.gridDiskDistances", props=["C17", "C18"], harness="c17.c", entry="h_gridDiskDistances", alloc=True,
   enforce=["gridDiskDistances/gridDiskDistances_c17"],
@@ -528,7 +535,7 @@ PTC_LOC = ["i", "j", "loc", "loopCount", "currentSearchNum", "numSearchHexes", "
            "numHexagons", "ring", "edgeHexError", "hexCenter", "temp", "searchHex", "hex"]
 J(name="c17.polygonToCells", props=["C17"], harness="c17.c", entry="h_polygonToCells", alloc=True, timeout=3000, tier="thorough",
   bound_note="size estimate (length of the out/search/found arrays) restricted to 12..16 cells; loops closed by loop contracts (no iteration bound)",
-  enforce=["polygonToCells/polygonToCells_c17"], checks=["--no-standard-checks", "--pointer-check"],
+  enforce=["polygonToCells/polygonToCells_c17"], checks=["--no-standard-checks"],
   replace=["validatePolygonFlags", "maxPolygonToCellsSize/maxPolygonToCellsSize_frame", "_getEdgeHexagons/_getEdgeHexagons_frame",
            "bboxesFromGeoPolygon/bboxesFromGeoPolygon_frame", "gridDisk/gridDisk_k1_c17", "cellToLatLng/cellToLatLng_frame",
            "pointInsidePolygon/pointInsidePolygon_frame"],
@@ -652,3 +659,9 @@ J(name="c19.getIcosahedronFaces", props=["C19", "C12", "C18"], harness="c19.c", 
                   "(out[h3v_g2] != -1 ==> out[h3v_g] != out[h3v_g2]))) && "
                   "(h3v_seen ==> (out[0] == h3v_wf || out[1] == h3v_wf || (faceCount == 5 && (out[2] == h3v_wf || out[3] == h3v_wf || out[4] == h3v_wf))))")])
 J(name="c19.pentagons", props=["C19"], harness="c19.c", entry="h_pentagon_faces", unwind=18, timeout=2400, tier="never")  # symbolic over the 192 pentagons: does not finish
+
+for nmax, tier in ((2, "never"), (3, "never")):   # does not finish within 30 min even for 2 cells: not registered
+    J(name="c17.compactCells.n%d" % nmax, props=["C17"], harness="c17.c", entry="h_compactCells", alloc=True, defs=["C17_NMAX=%d" % nmax],
+      enforce=["compactCells/compactCells_c17"], replace=["isPentagon", "cellToParent"], unwind=nmax + 3, timeout=1800, tier=tier,
+      checks=["--bounds-check", "--pointer-check"],
+      bound_note="at most %d input cells (every allocation may fail; all error exits reachable at that size except the pentagon-duplicate one)" % nmax)
